@@ -705,8 +705,11 @@ class FlowTrafficClass(IOperationByte, NumericString, FlowIPv6):
     decoder: ClassVar[Callable[[bytes], NumericValue]] = _number
 
 
-class FlowFragment(IOperationByteShort, BinaryString, FlowIPv4, FlowIPv6):
-    """IP fragmentation flags filter (DF, MF, IsFragment, First, Last)."""
+class FlowFragment(IOperationByte, BinaryString, FlowIPv4, FlowIPv6):
+    """IP fragmentation flags filter (DF, MF, IsFragment, First, Last).
+
+    RFC 8955 4.2.2.12: the bitmask MUST be encoded as a single octet.
+    """
 
     ID: ClassVar[int] = 0x0C
     NAME: ClassVar[str] = 'fragment'
